@@ -139,3 +139,9 @@ pub trait IsSubset {
     /// Determines if `T::self` is subset of other `T`
     fn is_subset(&self, other: &Self) -> bool;
 }
+
+/// Verification hooks (cargo feature `verif`): crate-private functions re-exported, and
+/// internal structures dumped as text, for an external correspondence harness.
+/// Nothing here is compiled unless the feature is enabled.
+#[cfg(feature = "verif")]
+pub mod verif;
